@@ -57,7 +57,7 @@ def _fields_equal(f, g):
 # ---------------------------------------------------------------------------------------------- cases
 
 def gen_case(rng):
-    kind = rng.choice(['local', 'local', 'split', 'split', 'block', 'block', 'partition', 'dotinv', 'compbasis'])
+    kind = rng.choice(['local', 'local', 'split', 'split', 'block', 'block', 'partition', 'dotinv', 'compbasis', 'asm-lists'])
     mesh = rng.choice(MESHES)
     fam = O1.FAMILY[mesh]
     d = {'check': kind, 'mesh': mesh, 'mseed': rng.randrange(10 ** 6), 'seed': rng.randrange(10 ** 6), 'intorder': rng.randint(2, 4),
@@ -73,6 +73,9 @@ def gen_case(rng):
     elif kind == 'partition':
         el = O1.ELEMS[fam]
         d['eu'] = rng.choice(el)
+        d['nparts'] = rng.randint(2, 3)
+    elif kind == 'asm-lists':
+        d['eu'] = rng.choice([e for e in O1.ELEMS[fam] if e not in ('ElementTriArgyris', 'ElementQuadBFS', 'ElementHex2')])
         d['nparts'] = rng.randint(2, 3)
     elif kind == 'dotinv':
         d['eu'] = rng.choice([e for e in O1.ELEMS[fam] if not e.startswith('C:')])
@@ -445,8 +448,85 @@ def check_compbasis_many(desc):
     return out, {'terms': terms, 'N': [int(b.N) for b in bases]}
 
 
+def check_asm_lists(desc):
+    """asm over LISTS of bases with a keyword DOF vector (interpolated per basis) and with w.idx / helpers.jump:
+    (a) cell partition into equally many cells: asm(form, [b1, b2, ..], p=x) == sum_i form.assemble(b_i, p=x);
+    (b) [side-0, side-1] interior facet bases for trial and test: asm(form, [f0, f1], [f0, f1], p=x) with the integrand
+        [u] {v} c(p) written with jump(w, u, v) == sum_ij (-1)^i 1/2 assemble(u v c(p); f_i (trial), f_j (test))"""
+    from skfem.assembly import BilinearForm, LinearForm, CellBasis, InteriorFacetBasis, asm
+    from skfem.helpers import jump
+    m = O1.make_mesh(desc['mesh'], desc['mseed'])
+    e = O1.make_elem(desc['eu'])
+    io = desc['intorder']
+    rng = np.random.default_rng(desc['seed'])
+    B = CellBasis(m, e, intorder=io)
+    x = rng.integers(-8, 9, size=B.N) / 4.0
+
+    def val(f):
+        f = f[0] if isinstance(f, tuple) else f
+        a = np.array(f)
+        return a.reshape((-1,) + a.shape[-2:]).sum(0)
+
+    def mass(*args):                       # sum over fields and components of u v, times (1 + p^2)
+        w = args[-1]
+        k = (len(args) - 1) // 2
+        c = 1.0 + val(w['p']) ** 2
+        return sum(val(a) * val(b) for a, b in zip(args[:k], args[k:-1])) * c
+
+    def load(*args):
+        w = args[-1]
+        return sum(val(a) for a in args[:-1]) * (0.5 + val(w['p']))
+    out = []
+    nparts = desc['nparts']
+    k = m.nelements // nparts
+    info = {'N': int(B.N), 'nparts': nparts, 'cells_each': int(k)}
+    if k >= 1:
+        perm = rng.permutation(m.nelements)
+        parts = [np.sort(perm[i * k:(i + 1) * k]) for i in range(nparts)]
+        bases = [CellBasis(m, e, intorder=io, elements=p_) for p_ in parts]
+        S = asm(BilinearForm(mass), bases, p=x).toarray()
+        R = sum(BilinearForm(mass).assemble(b, p=x) for b in bases).toarray()
+        out.append(('asm-lists-vector-param-matrix', _rel(S, R), None))
+        s_ = asm(LinearForm(load), bases, p=x)
+        r_ = sum(LinearForm(load).assemble(b, p=x) for b in bases)
+        out.append(('asm-lists-vector-param-vector', _rel(s_, r_), None))
+    if m.dim() >= 1 and (m.f2t[1] != -1).any():
+        fb = [InteriorFacetBasis(m, e, intorder=io, side=sd) for sd in (0, 1)]
+
+        def dval(f):                       # first gradient component where there is one, the value otherwise
+            f = f[0] if isinstance(f, tuple) else f
+            g = f.grad if getattr(f, 'grad', None) is not None else np.array(f)
+            return g.reshape((-1,) + g.shape[-2:])[0]
+
+        def gradmass(*args):
+            w = args[-1]
+            kk = (len(args) - 1) // 2
+            return sum(dval(a) * val(b) for a, b in zip(args[:kk], args[kk:-1])) * (1.0 + val(w['p']) ** 2)
+
+        def sipg(*args):                   # [u] {v} c(p) + {du} [v] c(p): asymmetric in (u, v), jump through helpers.jump
+            w = args[-1]
+            kk = (len(args) - 1) // 2
+            c = 1.0 + val(w['p']) ** 2
+            tot = 0.
+            for a, b in zip(args[:kk], args[kk:-1]):
+                ju, jv = jump(w, val(a), val(b))
+                tot = tot + ju * 0.5 * val(b) + dval(a) * 0.5 * jv
+            return tot * c
+        S = asm(BilinearForm(sipg), fb, fb, p=x).toarray()
+        R, mag = 0., 0.
+        for i in (0, 1):
+            for j in (0, 1):
+                Bm = BilinearForm(mass).assemble(fb[i], fb[j], p=x).toarray()
+                Bg = BilinearForm(gradmass).assemble(fb[i], fb[j], p=x).toarray()
+                R = R + (-1.0) ** i * 0.5 * Bm + (-1.0) ** j * 0.5 * Bg
+                mag += float(np.abs(Bm).max(initial=0.0)) + float(np.abs(Bg).max(initial=0.0))
+        err = float(np.abs(S - R).max(initial=0.0)) / (mag + 1e-300) if S.shape == np.shape(R) else float('inf')
+        out.append(('asm-idx-jump', err, {'convention': 'w.idx = (index in the trial list, index in the test list)'}))
+    return out, info
+
+
 CHECKS = {'local': check_local, 'split': check_split, 'block': check_block, 'partition': check_partition,
-          'dotinv': check_dotinv, 'compbasis': check_compbasis, 'compbasis-many': check_compbasis_many}
+          'dotinv': check_dotinv, 'compbasis': check_compbasis, 'compbasis-many': check_compbasis_many, 'asm-lists': check_asm_lists}
 
 
 def _key(desc, name):
@@ -456,6 +536,10 @@ def _key(desc, name):
         return 'compositebasis:equal-dofnum'
     if name in ('dot-complex', 'tolocal-facet-sum'):
         return f'coo:{name}'
+    if name.startswith('asm-lists-vector-param'):
+        return 'asm:vector-parameter-over-basis-lists'
+    if name == 'asm-idx-jump':
+        return 'asm:idx-order'
     if name == 'compositebasis-offsets':
         return 'compositebasis:offsets'
     if name == 'compositebasis-element-count':
@@ -515,6 +599,11 @@ def fixed_cases():
         k += 1
         out.append({'check': 'compbasis', 'mesh': mesh, 'mseed': 1000 + k, 'seed': 2000 + k, 'intorder': 3, 'tseed': 3000 + k,
                     'nterms': 2, 'eu': eu, 'ev': ev, 'restricted': restricted})
+    for mesh, eu, nparts in (('tri-struct', 'ElementTriP2', 2), ('quad-jiggled', 'ElementQuad1', 2), ('tet-struct', 'ElementTetP1', 3),
+                             ('tri-delaunay', 'DG:ElementTriP1', 2)):
+        k += 1
+        out.append({'check': 'asm-lists', 'mesh': mesh, 'mseed': 1000 + k, 'seed': 2000 + k, 'intorder': 3, 'tseed': 3000 + k,
+                    'nterms': 1, 'eu': eu, 'nparts': nparts})
     for mesh, elems in (('tri-struct', ['ElementTriP2', 'ElementTriP1', 'ElementTriP0']),
                         ('quad-jiggled', ['ElementQuad1', 'ElementQuad2', 'ElementQuad0', 'ElementQuad1']),
                         ('tet-struct', ['ElementTetP1', 'ElementTetP0', 'ElementTetP2'])):
